@@ -28,7 +28,17 @@ ASSUMPTIONS = [
 ]
 
 
+def as_given(spec, x):
+    """Whole numbers are handed over as Python ints when the case says so (the way most callers
+    write them: 208 V, 5 min, 32 A, 60 kWh)."""
+    if spec.get("ints") and isinstance(x, float) and x.is_integer() and abs(x) < 1e15:
+        return int(x)
+    return x
+
+
 def build(spec):
+    if spec.get("ints"):
+        spec = dict(spec, cap=as_given(spec, spec["cap"]), init=as_given(spec, spec["init"]), maxp=as_given(spec, spec["maxp"]))
     if spec["model"] == "ideal":
         return Battery(spec["cap"], spec["init"], spec["maxp"])
     return Linear2StageBattery(
@@ -79,6 +89,8 @@ def prop(spec, rec):
     cap, V, T = spec["cap"], spec["V"], spec["T"]
     tol_c = 1e-9 * cap
     labels = {spec["model"]}
+    if spec.get("ints"):
+        labels.add("integer_arguments")
 
     # 1. the law, step by step along a trajectory (each step judged from the actual state before it)
     b = build(spec)
@@ -86,7 +98,7 @@ def prop(spec, rec):
         before = stored_charge(b)
         labels |= _regime(spec, before, pilot, T)
         want_charge, want_power = expected(spec, before, pilot, T)
-        rate = b.charge(pilot, V, T)
+        rate = b.charge(as_given(spec, pilot), as_given(spec, V), as_given(spec, T))
         after = stored_charge(b)
         require(abs(after - want_charge) <= tol_c, "law_charge", lambda: "%s: from %.12g kWh pilot %r A for %r min -> %.12g kWh, law says %.12g" % (spec["model"], before, pilot, T, after, want_charge))
         want_rate = want_power * 1000 / V
@@ -215,13 +227,22 @@ def cases(draw):
     cap, init, maxp, tsoc = draw(battery_params())
     T = draw(PERIOD)
     pilots = draw(st.lists(PILOT, min_size=1, max_size=4))
+    ints = draw(st.integers(0, 3)) == 0
+    if ints:
+        # the everyday call: whole numbers, written as ints
+        cap = float(draw(st.sampled_from([8, 24, 60, 100])))
+        init = float(draw(st.sampled_from([0, 0, int(cap * 0.5), int(cap) - 1, int(cap)])))
+        maxp = float(draw(st.sampled_from([3, 7, 11, 50])))
+        T = float(draw(st.sampled_from([1, 5, 7, 15, 60])))
+        pilots = [float(draw(st.sampled_from([0, 6, 8, 16, 32, 80]))) for _ in pilots]
     return {
+        "ints": ints,
         "model": draw(st.sampled_from(["ideal", "cont", "cont", "cont", "step"])),
         "cap": cap,
         "init": init,
         "maxp": maxp,
         "tsoc": tsoc,
-        "V": draw(VOLT),
+        "V": float(draw(st.sampled_from([120, 208, 240]))) if ints else draw(VOLT),
         "T": T,
         "T2": T + draw(st.one_of(st.just(0.0), st.floats(0, 120))),
         "pilots": pilots,
@@ -239,7 +260,7 @@ def subchecks(tier):
             prop,
             quick=4000,
             thorough=600000,
-            floors={"crosses_transition": 0.03, "starts_in_rampdown": 0.1, "cont": 0.205, "ideal": 0.08, "step": 0.051},
+            floors={"crosses_transition": 0.03, "starts_in_rampdown": 0.1, "cont": 0.205, "ideal": 0.08, "step": 0.051, "integer_arguments": 0.1},
         )
     ]
 
